@@ -157,3 +157,89 @@ def map_byte_fn(m):
     def f(p):
         return m.get(str(p), m.get(p, 0))
     return f
+
+
+# --------------------------------------------------------------------------- bundle format v1 (two files)
+IDX1_START = 16
+IDX1_END = 16 + 128 * 128 * 5
+DATA1_TABLE_END = 60 + 128 * 128 * 4
+
+
+class V1(object):
+    """symbolic pre-state for BundleV1: index file (.bundlx) and data file (.bundle) as two arrays of
+    one Disk; the real store_tiles/remove_tile run end to end (open() -> SymFile, FileLock/os stubbed)"""
+
+    def __init__(self, C, nbytes):
+        import contextlib
+        import io
+        self.C = C
+        s = symex.CTX.solver
+        self.idx0 = z3.Array('bundlx', z3.BitVecSort(W), z3.BitVecSort(8))
+        self.dat0 = z3.Array('bundle', z3.BitVecSort(W), z3.BitVecSort(8))
+        self.Ld = z3.BitVec('Ld', W)
+        self.x, self.y, self.x2, self.y2 = [z3.BitVec(n, W) for n in ('x', 'y', 'x2', 'y2')]
+        self.d = [z3.BitVec('d%d' % i, 8) for i in range(nbytes)]
+        self.a = z3.BitVec('a', W)
+        self.n = nbytes
+        s.add(z3.UGE(self.Ld, DATA1_TABLE_END), z3.ULT(self.Ld, 2 ** 39))
+        for v in (self.x, self.y, self.x2, self.y2):
+            s.add(z3.ULT(v, 2 ** 31))
+        # header statistics of the data file are outside the claim: only assume they cannot overflow
+        s.add(z3.ULT(le_bytes(self.dat0, U(8), 4), 2 ** 31), z3.ULT(le_bytes(self.dat0, U(16), 4), 2 ** 31),
+              z3.ULT(le_bytes(self.dat0, U(24), 8), 2 ** 48))
+        reset_side()
+        self.disk = Disk()
+        self.disk.add('/b/R0000C0000.bundlx', self.idx0, BV64(z3.BitVecVal(IDX1_END + 16, W)))
+        self.disk.add('/b/R0000C0000.bundle', self.dat0, BV64(self.Ld))
+        disk = self.disk
+
+        def sym_open(name, mode='r'):
+            return SymFile(disk, name)
+        C.__dict__['__builtins__']['open'] = sym_open
+
+        @contextlib.contextmanager
+        def lock(*a, **k):
+            yield
+        C.__dict__['FileLock'] = lock
+
+        class OS(object):
+            SEEK_SET, SEEK_END = 0, 2
+
+            class path(object):
+                exists = staticmethod(lambda p: True)
+                join = staticmethod(lambda *a_: '/'.join(a_))
+                getsize = staticmethod(lambda p: 0)
+        C.__dict__['os'] = OS
+
+        @contextlib.contextmanager
+        def tile_buffer(tile):
+            class Buf(object):
+                def read(self_):
+                    return tile.source
+            yield Buf()
+            tile.stored = True
+        C.__dict__['tile_buffer'] = tile_buffer
+        self.b = C.BundleV1('/b/R0000C0000', (0, 0))
+
+    def entry(self, idx_arr, dat_arr, x, y):
+        """(offset, size) as the real readers see them: index entry, then the size field of the record"""
+        d = Disk()
+        d.add('i', idx_arr, BV64(z3.BitVecVal(IDX1_END + 16, W)))
+        idx = self.C.BundleIndexV1.__new__(self.C.BundleIndexV1)
+        idx._fh = SymFile(d, 'i')
+        rx, ry = self.b._rel_tile_coord((BV64(x), BV64(y), 0))
+        off = bv(idx.tile_offset(rx, ry))
+        size = le_bytes(dat_arr, off, 4)
+        return off, z3.If(off == 0, z3.BitVecVal(0, W), size)
+
+    def same_slot(self):
+        return z3.And(z3.URem(self.x, 128) == z3.URem(self.x2, 128), z3.URem(self.y, 128) == z3.URem(self.y2, 128))
+
+
+def inv_v1(dat, Ld, off, size):
+    """a slot is removed (offset 0) or points at a size field inside the data file whose record fits"""
+    return z3.Or(off == 0, z3.And(z3.UGE(off, U(60)), z3.ULE(off + 4, Ld), z3.ULE(size, Ld - off - 4)))
+
+
+def disjoint_v1(off1, size1, off2, size2):
+    return z3.Or(off1 == 0, off2 == 0, z3.ULE(off1 + 4 + size1, off2), z3.ULE(off2 + 4 + size2, off1))
